@@ -48,6 +48,12 @@ M = {
  # accessor used by the Eigen branch of the learned models: the sparse experience hands out the visit table of action 0 for the last action
  'sparseExp_getVisitsTable_a_last_is_first': ('src/MDP/SparseExperience.cpp',
     'SparseExperience::getVisitsTable(const size_t a) const { return visits_[a]; }', 'SparseExperience::getVisitsTable(const size_t a) const { return visits_[a + 1 == A && A > 2 ? 0 : a]; }'),
+ # two cooperating sites: record() no longer refreshes the indeces_ it returns (sync(indeces) then syncs stale rows)
+ 'coopExp_record_stale_indeces': ('src/Factored/MDP/CooperativeExperience.cpp',
+    'indeces_[i] = id;', 'if (timesteps_ == 1) indeces_[i] = id;'),
+ # factored bandit keeps the returned indices of the first record only
+ 'fbandit_record_stale_indeces': ('src/Factored/Bandit/Experience.cpp',
+    'indeces_[i] = aId;', 'if (timesteps_ == 1) indeces_[i] = aId;'),
 }
 names = sys.argv[1:] or list(M)
 env = dict(os.environ, AITB_C07_LENIENT_SITES='1')
